@@ -3,7 +3,7 @@ package ruleset
 
 // C17: domain rule lists match exactly the union of includes minus the excludes.
 //
-//vf:assume C17: rule sources come from a pool of 17 patterns (literals, an anchored pattern with a top-level alternation, a pattern ending inside a \\Q quotation, a pattern that itself begins with a hyphen (expressible only as the exclude rule "--a"), dot, anchors, alternation, groups, classes, inline flags incl. trailing and leading (?i), (?s), (?U)); lists of <=2 (quick) / <=3 (thorough) items, every include/exclude marking with at least one include
+//vf:assume C17: rule sources come from a pool of 18 patterns (literals, an anchored pattern that accepts the empty host, an anchored pattern with a top-level alternation, a pattern ending inside a \\Q quotation, a pattern that itself begins with a hyphen (expressible only as the exclude rule "--a"), dot, anchors, alternation, groups, classes, inline flags incl. trailing and leading (?i), (?s), (?U)); lists of <=2 (quick) / <=3 (thorough) items, every include/exclude marking with at least one include
 //vf:assume C17: hosts are ASCII strings of length 0..4 (quick) / 0..7 (thorough); all byte values are decided by the solver
 //vf:assume C17: each regexp object met at run time is encoded from the real regexp/syntax program and validated against the real package on all strings of length <= 4 over a pattern-derived alphabet
 
@@ -13,7 +13,7 @@ import (
 	"github.com/saucelabs/forwarder/internal/vfrt"
 )
 
-var vfRulePool = []string{"ab", "a.b", "^a", "b$", "a|b", "(a|b)c", "[a-c]+", "a.*", "(?i)ab", "ab(?i)", "(?s).", "(?U)a+b", "x?", `\.com$`, "-a", "^a|b$", `\Qa.`}
+var vfRulePool = []string{"ab", "a.b", "^a", "b$", "a|b", "(a|b)c", "[a-c]+", "a.*", "(?i)ab", "ab(?i)", "(?s).", "(?U)a+b", "x?", `\.com$`, "-a", "^a|b$", `\Qa.`, "^x?$"}
 
 //vf:harness property=C17 nopanic reach=c17-match,c17-nomatch
 func vfH_C17_match() {
@@ -24,7 +24,7 @@ func vfH_C17_match() {
 	}
 	n := 1 + vfrt.Choice("items", maxItems)
 	if n == 3 {
-		pool = []string{"ab", "^a", "b$", "a|b", "(?i)ab", "(?s).", `\.com$`, "^a|b$", `\Qa.`}
+		pool = []string{"ab", "^a", "b$", "a|b", "(?i)ab", "(?s).", `\.com$`, "^a|b$", `\Qa.`, "^x?$"}
 	}
 	var items []RegexpListItem
 	var own []*regexp.Regexp
